@@ -2,7 +2,7 @@
 from fractions import Fraction
 
 from vlib.engine import Case
-from . import gen
+from . import gen, e2e, geomgen as G
 from .geomgen import f32_bits, bits_f32, f32
 
 ID = "C04"
@@ -126,6 +126,25 @@ def generate(rng, tier):
         cases.append(Case(f"qattr 10 1 {special},{f32_bits(2.0)}", tags=("nan_inf_rejected",)))
     for q in (0, -1, 31, 32):
         cases.append(Case(f"qattr {q} 1 {f32_bits(1.0)},{f32_bits(2.0)}", tags=("invalid_bits_rejected",)))
+    # end to end: quantized float attributes through every method (sequential / kd-tree / Edgebreaker), speeds,
+    # prediction schemes, built-in compression on/off, skip-transform decodes; the executable specification
+    # RoundTripOK demands decoded == dequant(quant(original)) with the parameters declared in the stream
+    for _ in range(500 if tier == "thorough" else 100):
+        is_mesh = rng.random() < 0.5
+        nf = rng.randint(1, 3)
+        specs = [(G.POSITION, G.DT["f32"], 3, False, 0)]
+        for k in range(1, nf):
+            t = rng.choice([G.TEX_COORD, G.GENERIC, G.COLOR])
+            specs.append((t, G.DT["f32"], 2 if t == G.TEX_COORD else rng.randint(1, 4), False, k))
+        if rng.random() < 0.3:
+            specs.append((G.COLOR, G.DT["u8"], 3, True, len(specs)))
+        g = G.rand_mesh(rng, rng.choice([6, 20, 60]), specs=specs) if is_mesh else G.rand_point_cloud(rng, rng.choice([5, 40, 300]), specs=specs)
+        if g.num_points == 0:
+            continue
+        toks, info = e2e.rand_options(rng, g, quant_prob=1.0, want_skip=rng.random() < 0.5)
+        c = e2e.make_case(g, toks, info, {"rt", "valid", "skip"}, tags=("e2e_quant_mesh" if is_mesh else "e2e_quant_pc",))
+        c.mtag = e2e.model_support_tag
+        cases.append(c)
     return cases
 
 
